@@ -274,8 +274,44 @@ def check(prog, rep):
         # ---------------- P3
         if cat == STANDARD:
             check_P3(prog, rep, eff, key, f, rasters)
+    # ---------------- P3-backend: the dask path hands back a lazy array on every path (the output has the input's array backend)
+    from ..backends import local_value
+    from ..program import Ext, Partial
+    NP_MAKERS = {'full', 'zeros', 'ones', 'empty', 'full_like', 'zeros_like', 'ones_like', 'empty_like', 'array', 'asarray', 'asanyarray',
+                 'ascontiguousarray', 'copy', 'arange', 'linspace'}
+    seen_g = set()
+    from ..backends import _backend_paths
+    for f in prog.all_funcs():
+        if f.is_lambda or f.module.name.startswith('xrspatial.gpu_rtx'):
+            continue
+        key = (f.module.name.split('.', 1)[-1], f.name)
+        try:
+            paths = _backend_paths(prog, f)
+        except AnalysisIncomplete:
+            continue
+        for path in paths:
+            g = path.func()
+            if path.backend != 'dask' or g is None or g.is_lambda or id(g) in seen_g:
+                continue
+            seen_g.add(id(g))
+            bad = []
+            for r in [x for x in g.own_nodes() if isinstance(x, ast.Return) and x.value is not None]:
+                v = local_value(g, r.value)
+                if isinstance(v, ast.Call):
+                    t = prog.resolve_callable(g, g.module, v.func)
+                    if isinstance(t, Ext) and t.dotted.split('.')[0] == 'numpy' and t.dotted.split('.')[-1] in NP_MAKERS:
+                        bad.append((r, 'an array made by %s' % t.dotted))
+                    elif isinstance(v.func, ast.Attribute) and v.func.attr == 'compute' and not v.args:
+                        bad.append((r, 'a computed (eager) array'))
+            for r, why in bad:
+                rep.add('P3-backend', g, '%s.%s[dask]' % key, norm(r)[:120], r.lineno, False,
+                        'the result of a dask-backed raster is dask-backed on every path: this path returns %s, so the caller gets a '
+                        'numpy-backed DataArray for a lazy input' % why)
+            if not bad:
+                rep.add('P3-backend', g, '%s.%s[dask]' % key, 'every return of %s is lazy' % g.name, g.node.lineno, True)
     rep.coverage_extra['public_entries'] = n
     rep.floor('P1', 60)
     rep.floor('P2', 45)
     rep.floor('P3', 28)
     rep.floor('P1-table', 4)
+    rep.floor('P3-backend', 20)
